@@ -10,7 +10,6 @@ verus! {
 pub open spec fn call_gate<Req, Res, E>(tr: Trace<Req, Res, E>) -> bool { true }
 pub open spec fn await_gate<Req, Res, E>(tr: Trace<Req, Res, E>) -> bool { true }
 //@include inner.rs
-//@include tokio_sleep.rs
 //@include events.rs
 
 // ---- unit prelude (ASSUMED). R17: every `tokio::spawn(async move { B })` runs B in line (a detached task runs to completion;
@@ -26,10 +25,18 @@ pub struct SendError {}
 #[verifier::external_body]
 pub fn channel<Req, Res, E>(capacity: usize, Tracked(tr): Tracked<&mut Trace<Req, Res, E>>) -> (r: (Sender<Res, E>, Receiver<Res, E>))
     requires capacity >= 1,   // tokio panics on a zero-capacity bounded channel
-    ensures *final(tr) == (Trace { tx_alive: true, ..*old(tr) }),
+    ensures *final(tr) == (Trace { tx_alive: true, chan_cap: capacity as nat, ..*old(tr) }),
 { unimplemented!() }
 impl<Res, E> Sender<Res, E> {
     #[verifier::external_body] pub fn clone(&self) -> (r: Self) { unimplemented!() }
+    /// non-blocking send: the message is queued when the channel has room and DROPPED otherwise (pending messages of blocked
+    /// senders count against the capacity here, which only makes a drop possible more often than in reality)
+    #[verifier::external_body]
+    pub fn try_send<Req>(&self, msg: (usize, Result<Res, E>), Tracked(tr): Tracked<&mut Trace<Req, Res, E>>) -> (r: Result<(), SendError>)
+        ensures r is Ok ==> *final(tr) == (Trace { queue: old(tr).queue.push(msg), ..*old(tr) }),
+            r is Err ==> *final(tr) == *old(tr),
+            old(tr).queue.len() < old(tr).chan_cap ==> r is Ok,
+    { unimplemented!() }
     #[verifier::external_body] pub fn send(&self, msg: (usize, Result<Res, E>)) -> (r: SendFut<Res, E>) ensures r.msg == msg { unimplemented!() }
 }
 impl<Res, E> SendFut<Res, E> {
@@ -70,16 +77,36 @@ pub fn vx_branch_disabled() requires false { }
 /// a select! branch that cannot be taken
 #[verifier::external_body]
 pub fn vx_never<T>() -> (r: T) requires false { unimplemented!() }
+/// tokio::time::Sleep with its deadline as ghost state. Time is the Clock's ghost instant: it moves forward by an arbitrary
+/// amount at every vx_tick (placed where the task can be descheduled) and a timer completes at SOME instant at or after its deadline.
+pub struct SleepFut { pub d: Duration, pub deadline: Ghost<nat> }
+#[verifier::external_body]
+pub fn vx_tick(clk: &mut Clock) ensures final(clk).now@ >= old(clk).now@ { unimplemented!() }
+#[verifier::external_body]
+pub fn sleep(d: Duration, clk: &mut Clock) -> (r: SleepFut)
+    ensures final(clk).now@ >= old(clk).now@, r.d == d, r.deadline@ == final(clk).now@ + d.nanos,
+{ unimplemented!() }
 impl SleepFut {
     /// `&mut sleep` awaited in place
     #[verifier::external_body]
-    pub fn vx_await_mut<Req, Res, E>(&mut self, Tracked(tr): Tracked<&mut Trace<Req, Res, E>>)
-        ensures final(self).d == old(self).d,
+    pub fn vx_await_mut<Req, Res, E>(&mut self, clk: &mut Clock, Tracked(tr): Tracked<&mut Trace<Req, Res, E>>)
+        ensures *final(self) == *old(self), final(clk).now@ >= old(clk).now@ && final(clk).now@ >= old(self).deadline@,
             *final(tr) == (Trace { ev: old(tr).ev.push(Ev::Sleep(old(self).d)), slept: old(tr).slept + old(self).d.nanos as nat, slept_since_done: old(tr).slept_since_done + old(self).d.nanos as nat, ..*old(tr) }),
     { unimplemented!() }
+    #[verifier::external_body]
+    pub fn deadline(&self) -> (r: Instant) ensures r.t == self.deadline@ { unimplemented!() }
+    #[verifier::external_body]
+    pub fn reset(&mut self, deadline: Instant) ensures final(self).deadline@ == deadline.t, final(self).d == old(self).d { unimplemented!() }
 }
+/// the configured delay before attempt k, in nanoseconds (0 when none is configured)
+pub open spec fn dl(d: HedgeDelay, k: usize) -> nat { match delay_spec(d, k) { Some(x) => x.nanos as nat, None => 0 } }
+/// each attempt after the first was started no earlier than its delay after the previous attempt was started
+pub open spec fn spaced_starts(at: Seq<nat>, d: HedgeDelay) -> bool {
+    forall|k: int| 1 <= k < at.len() ==> #[trigger] at[k] >= at[k - 1] + dl(d, k as usize)
+}
+pub open spec fn vx_positive_delay_spec(o: Option<Duration>) -> Option<Duration> { if o is Some && o->0.nanos > 0 { o } else { None::<Duration> } }
 pub fn vx_positive_delay(o: Option<Duration>) -> (r: Option<Duration>)
-    ensures r == (if o is Some && o->0.nanos > 0 { o } else { None::<Duration> }),
+    ensures r == vx_positive_delay_spec(o),
 { match o { Some(d) => if d.nanos > 0 { Some(d) } else { None }, None => None } }
 /// HedgeDelay::get_delay by contract (its body is extracted and proved below)
 pub struct HedgeDelay { pub id: Ghost<int> }
@@ -96,15 +123,18 @@ pub struct Hedge<Req, Res, E> { pub inner: Inner<Req, Res, E>, pub config: Arc<H
 
 /// nothing hedging-related has happened yet in this trace
 pub open spec fn hedge_start<Req, Res, E>(t: Trace<Req, Res, E>) -> bool {
-    t.calls == 0 && t.done == 0 && t.reqs.len() == 0 && t.spawned == 0 && t.queue.len() == 0 && !t.tx_alive && t.recv_ok == 0 && t.recv_err == 0 && t.unguarded == 0 && t.slept == 0 && t.last_recv is None
+    t.calls == 0 && t.done == 0 && t.reqs.len() == 0 && t.spawned == 0 && t.spawn_at.len() == 0 && t.queue.len() == 0 && !t.tx_alive && t.recv_ok == 0 && t.recv_err == 0 && t.unguarded == 0 && t.slept == 0 && t.last_recv is None
 }
 pub open spec fn cap(max_attempts: usize) -> nat { if max_attempts >= 1 { max_attempts as nat } else { 1 } }
 
 #[verifier::exec_allows_no_decreases_clause]
+#[verifier::loop_isolation(false)]
+#[verifier::allow_complex_invariants]
 pub fn execute_with_hedging<Req: VClone, Res, E: VClone>(service: Inner<Req, Res, E>, req: Req, config: Arc<HedgeConfig>, clk: &mut Clock, Tracked(tr): Tracked<&mut Trace<Req, Res, E>>) -> (result: Result<Res, HedgeError<E>>)
     requires old(tr).fresh() || *old(tr) == (Trace { created: true, ev: old(tr).ev, ..*old(tr) }) && hedge_start(*old(tr)), config.max_hedged_attempts >= 1,   // the builder clamps max_hedged_attempts to >= 1
     ensures
         1 <= final(tr).calls <= cap(config.max_hedged_attempts),   // #at_least_one_and_at_most_max_hedged_attempts_inner_calls [C12]
+        vx_positive_delay_spec(delay_spec(config.delay, 1)) is Some ==> spaced_starts(final(tr).spawn_at, config.delay) && final(tr).spawn_at.len() == final(tr).calls,   // #with_a_delay_each_attempt_starts_no_earlier_than_its_delay_after_the_previous_start [C12]
         forall|i: int| 0 <= i < final(tr).reqs.len() ==> final(tr).reqs[i] == req,   // #every_attempt_carries_the_request [C12,C20]
         result matches Ok(v) ==> (final(tr).last_recv matches Some(m) && m.1 == Ok::<Res, E>(v)),   // #resolves_with_a_successful_attempts_response [C12,C20]
         result is Ok <==> final(tr).recv_ok >= 1,   // #returns_at_the_first_successful_result [C12]
